@@ -318,6 +318,56 @@ def h_repr(env, N, kind):
     env.goal('unchanged', unchanged(before, fields(obj)))
 
 
+def h_alias_ops(env, N, which, r=0):
+    """in-place operations whose argument shares storage with the receiver still act as specified"""
+    M = Mods(env)
+    if which == 'rotate_by_own_row':
+        gs = env.bits('gs', (3, 2 * N))
+        ps = env.signs('ps', (3,))
+        lst = M.pa.PauliList(gs.copy(), ps.copy())
+        res = env.run(lambda: lst.rotate_by(lst[1]))
+        env.goal('no_exception', b_not(res.raised))
+        if res.value is not None:
+            for j in range(3):
+                ge, pe = ref.ref_rotate(gs[1], ps[1], gs[j], ps[j])
+                env.goal('row%d' % j, b_and(arr_eq(lst.gs[j], ge), eq(lst.ps[j], pe)))
+    elif which == 'measure_own_stabilizers':
+        gs, ps = sym_state(env, N)
+        state = mk_state(M, env, gs, ps, r)
+        res = env.run(lambda: state.measure(state.stabilizers))
+        env.goal('no_exception', b_not(res.raised))
+        if res.value is not None:
+            out, lp = res.value
+            env.goal('outcomes_all_plus', AND(eq(o, 0) for o in out))
+            env.goal('log2prob_zero', eq(lp, 0))
+            env.goal('state_unchanged', AND([arr_eq(state.gs, gs), arr_eq(state.ps, ps), eq(state.r, r)]))
+    elif which == 'measure_state_argument':
+        gs, ps = sym_state(env, N)
+        g2, p2 = sym_state(env, N, 't')
+        state = mk_state(M, env, gs, ps, r)
+        other = mk_state(M, env, g2, p2, 0)
+        res = env.run(lambda: state.measure(other))
+        env.goal('no_exception', b_not(res.raised))
+        env.goal('argument_state_unchanged', AND([arr_eq(other.gs, g2), arr_eq(other.ps, p2), eq(other.r, 0)]))
+    elif which == 'transform_by_own_map':
+        gs, ps = sym_state(env, N)
+        state = mk_state(M, env, gs, ps, r)
+        res = env.run(lambda: state.transform_by(state.to_map()))
+        env.goal('no_exception', b_not(res.raised))
+        if res.value is not None:
+            mg = oarr(np.empty((2 * N, 2 * N), dtype=object))
+            mp = oarr(np.empty((2 * N,), dtype=object))
+            for i in range(N):
+                mg[2 * i], mp[2 * i] = gs[N + i], ps[N + i]
+                mg[2 * i + 1], mp[2 * i + 1] = gs[i], ps[i]
+            for j in range(2 * N):
+                ge, pe = ref.ref_transform(gs[j], ps[j], mg, mp)
+                env.goal('row%d' % j, b_and(arr_eq(state.gs[j], ge), eq(state.ps[j], pe)))
+
+
+h_alias_ops.uses_rng = True
+
+
 def jobs(tier):
     J = []
     for N in (1, 2):
@@ -327,6 +377,11 @@ def jobs(tier):
             J.append(dict(harness=('c17', 'h_copy_gate_layer'), params=dict(N=N, kind=kind), timeout_s=300, cost=10))
         for name in QUERIES:
             J.append(dict(harness=('c17', 'h_query'), params=dict(N=N, name=name), timeout_s=600, cost=10, max_paths=4000))
+    for N in (1, 2):
+        J.append(dict(harness=('c17', 'h_alias_ops'), params=dict(N=N, which='rotate_by_own_row')))
+        for r in range(N + 1):
+            for which in ('measure_own_stabilizers', 'measure_state_argument', 'transform_by_own_map'):
+                J.append(dict(harness=('c17', 'h_alias_ops'), params=dict(N=N, which=which, r=r), timeout_s=300, cost=10))
     for kind in ('Pauli', 'PauliList', 'CliffordMap', 'StabilizerState', 'StabilizerState1'):
         J.append(dict(harness=('c17', 'h_repr'), params=dict(N=1, kind=kind), max_paths=5000))
     from .c09 import tuples
